@@ -40,6 +40,10 @@ mod asan {
         unsafe { __asan_set_error_report_callback(on_report) };
     }
 
+    pub fn pending() -> bool {
+        SEEN.load(Ordering::SeqCst)
+    }
+
     pub fn probe() -> Option<String> {
         if SEEN.swap(false, Ordering::SeqCst) {
             Some(REPORT.lock().map(|r| r.clone()).unwrap_or_default())
@@ -54,7 +58,7 @@ fn main() {
     #[cfg(feature = "asan")]
     {
         asan::install();
-        utilsrun::main_with(&args[1..], Some(asan::probe));
+        utilsrun::main_with(&args[1..], Some(utilsrun::UbProbe { take: asan::probe, pending: asan::pending }));
     }
     #[cfg(not(feature = "asan"))]
     utilsrun::main_with(&args[1..], None);
